@@ -2,6 +2,7 @@
 
 pub struct Rng {
     s: [u64; 4],
+    pub ticks: u64,
 }
 
 impl Rng {
@@ -15,7 +16,12 @@ impl Rng {
             y = (y ^ (y >> 27)).wrapping_mul(0x94d049bb133111eb);
             *x = y ^ (y >> 31);
         }
-        Rng { s }
+        Rng { s, ticks: 0 }
+    }
+    /// a counter for round-robin stratification (every stratum is visited in turn)
+    pub fn tick(&mut self) -> u64 {
+        self.ticks += 1;
+        self.ticks
     }
     pub fn next(&mut self) -> u64 {
         let r = self.s[1].wrapping_mul(5).rotate_left(7).wrapping_mul(9);
